@@ -347,7 +347,7 @@ def run_id_scenarios(out, rng, n):
                     if last is not None and last[0] == fs[st]:
                         out.violation(f"generated task for {st}.in ran again although its input, source and product did not change",
                                       {"scenario": sc["file_sets"], "build_files": fs, "ran": o["ran"], "names": o["names"]},
-                                      finding_matchers=("F16",) if last[1] != single else ())
+                                      finding_matchers=("F16",) if (last[1] or single) else ())      # the id-less name `task_copy` is shared by whatever file is alone
                     built[st] = (fs[st], single)
                 elif last is None or last[0] != fs[st]:
                     out.violation(f"generated task for new/changed {st}.in did not run", {"scenario": sc["file_sets"], "build_files": fs, "ran": o["ran"]})
